@@ -365,8 +365,6 @@ def run(ctx):
         (DT + ".Registry.get", "registry_get", DT + ".Registry",
          "basic-key normalisation of dot-free names; stock before "
          "registered before search"),
-        (DT + ".Registry.search", "registry_search", DT + ".Registry",
-         "dotted Python name, import per component, remembered"),
         (DT + ".Registry.find_name", "registry_find_name", DT + ".Registry",
          "registered names before stock names"),
     ])
